@@ -31,7 +31,7 @@ def plan(tier, seed):
             parts.append(Part("vt.harness.c07", "query", {"qn": qn, "hf": hf, "hi": hi, "qv": qv, "vb": 1 if tier == "quick" else 2}, 600 if tier == "quick" else 6000, 60,
                               "node query == {same schema or descendant schema in a version-compatible release}; exact schema first; membership agrees"))
     k = 2 if tier == "quick" else 3
-    import vt.harness.cont as HC  # noqa
+    import vt.contactions as HC  # noqa
     for drv in ("h5", "ih5"):
         for first in range(len(HC.ACTIONS)):
             parts.append(Part("vt.harness.cont", "seq", {"drv": drv, "k": k, "first": first}, 900 if tier == "quick" else 8000, 300,
